@@ -219,6 +219,15 @@ func RandNet(r *Rand, n int, timeoutMs int64, faults bool) *plan.NetPlan {
 			np.CType = nil
 		}
 	}
+	if r.P(1, 3) {
+		// further response headers: the usual suspects and whatever header names the library's source mentions
+		names := []string{"Content-Encoding", "Transfer-Encoding", "Content-Language", "Last-Modified", "ETag", "Refresh", "Link", "X-Robots-Tag", "Content-Disposition", "Cache-Control", "Set-Cookie", "Content-Location", "Retry-After", "Accept-Ranges", "Content-Range", "Vary"}
+		names = append(names, VocabHeaders...)
+		vals := []string{"gzip", "identity", "chunked", "bytes", "none", "0", "1", "-1", "", "text/html; charset=iso-8859-1", "en", "fr, de", "Wed, 21 Oct 2015 07:28:00 GMT", "5; url=http://example.com/next", "<http://example.com/p/3>; rel=\"next\"", "noindex, nofollow", "attachment; filename=\"a.html\"", "max-age=0", "a=b; Path=/", "bytes 0-99/200", "*"}
+		for i := 0; i < r.Range(1, 4); i++ {
+			np.Headers = append(np.Headers, [2]string{Pick(r, names), Pick(r, vals)})
+		}
+	}
 	tus := timeoutMs * 1000
 	around := func() int64 {
 		// a duration just below / just above / far from the timeout, with a unique sub-ms offset
